@@ -358,4 +358,24 @@ def sdRunModel (cfg : FuncCfg) (f : Func) : M (List FEv) FExc (String Ã— (FExc â
       | (l, .result v) => (l, .next ("result", .inr v))
       | (l, .error e) => (l, .next ("error", .inl (.user e)))
 
+/-! ### InExecutor -/
+
+/-- the leaves of `InExecutor.__call__`: a partial object is the function with its arguments bound;
+    `run_in_executor(pool, g, *a)` runs `g(*a)` -/
+def execP (f : Func) : ExecPrims (List XEv) Nat Val (List Val) Data Unit (List Val Ã— Data) where
+  enterPool := fun log => (log ++ [.enter], .next ())
+  exitPool _ := M.modify fun log => log ++ [.exit]
+  kwargsNonEmpty k := !k.isEmpty
+  mkPartial a k := (a, k)
+  runPartial _ p := fun log =>
+    match f p.1 p.2 with
+    | .ok v => (log ++ [.run p.1 p.2], .next v)
+    | .error e => (log ++ [.run p.1 p.2], .raise e)
+  runPlain _ a := fun log =>
+    match f a [] with
+    | .ok v => (log ++ [.run a []], .next v)
+    | .error e => (log ++ [.run a []], .raise e)
+  setFunc := M.pure ()
+  setExecutor := M.pure ()
+
 end Edzed.TrTie.OB
